@@ -327,7 +327,9 @@ def call(ctx: Ctx, rule="R-C08-CALL") -> None:
     # process() hands the resolved payload (bucket content) to actor_run
     p = ctx.func(f"{C.PROCESSOR}.process")
     ar = [c for c in ast.walk(p.node) if isinstance(c, ast.Call) and (dotted(c.func) or "").endswith("actor_run")]
-    ctx.require(len(ar) == 1, f"{p.qualname}: actor_run call not found")
+    if not ctx.check(len(ar) == 1, rule, p, "process() runs the actor through one actor_run call", "single call site", f"process() has {len(ar)} actor_run call sites "
+                     f"({[unparse(a.func) for a in ar]}): arguments reach the actor by different routes", instance="single actor_run call"):
+        return
     pa = C.arg(ar[0], 3, "payload")
     ok = isinstance(pa, ast.Name) and any(isinstance(d, ast.Await) and isinstance(d.value, ast.Call) and (dotted(d.value.func) or "").endswith("get_payload") for d in C.local_defs(p, pa.id))
     ctx.check(ok, rule, p, "actor_run receives the resolved payload", "bucket reference replaced by the bucket's data", f"process() passes {unparse(pa)} as payload to actor_run", node=ar[0],
